@@ -51,6 +51,7 @@ type G struct {
 	pred     func() bool
 	deadline time.Time
 	prio     int
+	Rand     *Stream // per-goroutine crypto/rand source (see SetRand)
 }
 
 type Policy struct {
